@@ -27,6 +27,7 @@ RULE = (
     'hydrogen-bond networks (e2e.network_table).  Generated chains also carry undefined extra atoms '
     '(deletion must be reported), hidden chain ends in every mode, waters with hydrogens present or '
     'only H2, HETATM-recorded standard residues, PDB column and record-order variants.'
+    ' big: the protein rules and the strand rules on `big` structures (see C02), with missing atoms and insertion codes.'
 )
 ASSUMPTIONS = [
     "XML templates define atom sets (read independently); chemistry rules in vf/topo.py",
